@@ -1,11 +1,39 @@
 /-
   Props/C16.lean — property theorems for C16 (the REPL / partial evaluator only returns what
-  the compiled program would).  Proved part: argument capture — the evaluator binds names of a
-  parameter pattern to the argument value exactly as the source meaning does
-  (`create_argument_captures` vs `bindPat`, via the shared path theorem).  The evaluator's
-  reduction engine is decided differentially (tools/props/c16.py).
+  the compiled program would).
+
+  FULL STATEMENT (not proved in this generality; decided on the real REPL by tools/props/c16.py:
+  the tie of `modeld shrink` to `Repl::process_line`, and the differential oracle
+  residual-vs-compiled on sessions of the whole surface language):
+    for every session (definitions, then an expression `e`) and every argument value,
+    if the REPL answers `e'` and the compiled `(mod PARAMS defs e)` returns `v`
+    then the compiled `(mod PARAMS defs e')` returns `v`  (in particular `e' = (q . c)` ⇒ `v = c`).
+  It is FALSE for the unchanged tree (findings C16-F1/F3: a free variable inside the branch of an
+  `if` reaches the compiler, which reads an unbound identifier as its own quoted name —
+  `open_if_branch_counterexample` below; C16-F2 is the same through let-bound names, outside
+  the core language).
+
+  PROVED (`…_partial`, this file + Proofs/ShrinkLemmas.lean) over the model `Shrink.shrink`
+  (Lang/Shrink.lean) of `Evaluator::shrink_bodyform_visited`, which `modeld shrink` ties to the real
+  REPL on generated core sessions (identical printed trees), with `Core.evalCore` as the source
+  meaning — the one `C01.compile_core_correct_partial` relates to the compiled code — for ANY
+  operator table implementing `i` and `c`, any definitions, any amount of fuel on either side:
+  on the fragment `Shrink.thmFrag` (free variables, constants, operator calls, and `if` whose
+  branches are closed core expressions — function calls included there: the evaluator compiles
+  the branch with the real compiler and runs it, and the proof goes through the compiler theorem)
+  * a residual that is again a core expression (`exprOk`: no `(a …)` left, i.e. every `if` was
+    decided) has the value of the original wherever the original has one, at the same fuel;
+  * a constant answer is the value of the original wherever it has one;
+  * hence the COMPILED program returns the REPL's constant / the compiled residual program
+    returns the compiled original's source value.
+  NOT PROVED: function calls outside `if` branches (call-by-name substitution through
+  `create_argument_captures`; modelled and tied, not proved), residuals that still contain an
+  undecided `if` (they apply compiled code: `(a (i c (q . code) (q . code)) env)`), and the
+  symbolic CLVM evaluator behind `continue_apply` (not modelled: the model answers `unsup`).
+  Also kept: argument capture agrees with source-level destructuring (`captures_correct`).
 -/
 import ChialispModel.Props.C01
+import ChialispModel.Proofs.ShrinkLemmas
 
 namespace C16
 
@@ -15,5 +43,109 @@ theorem captures_correct (name : Bytes) (pat : Rich) (hok : Lang.patOk pat = tru
     (hb : Lang.bindPat pat (Lang.SV.ofVal v) = some ρ) :
     ∃ w, Lang.lookupEnv name ρ = some (Lang.SV.ofVal w) ∧ Path.lookupNat p v = .ok w :=
   C01.name_lookup_correct name pat hok p h v ρ hb
+
+example : Lang.nameLookup [89] (.cons (.atom [88]) (.cons (.atom [89]) .nil)) = some 5 := by decide
+
+/-- RESIDUAL SOUNDNESS on the fragment: whatever the REPL model answers for `e` (any depth limit
+    `k`), if the answer is a core expression then under every parameter pattern / argument value /
+    fuel at which the original has a value, the answer has the same value. -/
+theorem shrink_residual_sound_partial (ops : OpSem) (hops : Core.OpsCore ops) (fns : List Core.FnDef)
+    (k : Nat) (e e' : Core.Expr) (hfrag : Shrink.thmFrag fns e = true) (hres : Core.exprOk e' = true)
+    (hs : Shrink.replShrink ops fns k e = .ok e')
+    (n : Nat) (pat : Rich) (args v : Val) (he : Core.evalCore ops fns n pat args e = .ok v) :
+    Core.evalCore ops fns n pat args e' = .ok v :=
+  (Shrink.shrink_sound_aux ops hops fns pat args (Shrink.ifHyp_of_wf ops hops fns pat args) k).1
+    e e' n v hfrag hres hs he
+
+/-- the session used by the examples: `(defun sum (L) (if L (+ (f L) (sum (r L))) 0))`. -/
+def sumFn : Core.FnDef :=
+  ⟨[115, 117, 109], .cons (.atom [76]) .nil,
+   .ite (.var [76])
+     (.op 16 (.cons (.op 5 (.cons (.var [76]) .nil))
+        (.cons (.call [115, 117, 109] (.cons (.op 6 (.cons (.var [76]) .nil)) .nil)) .nil)))
+     (.lit Val.nil)⟩
+
+/-- open expression `(+ X (* 2 3) (if 1 (sum (q 1 2 3)) 0))`: the residual is `(+ X (q . 6) (q . 6))`. -/
+def openExpr : Core.Expr :=
+  .op 16 (.cons (.var [88]) (.cons (.op 18 (.cons (.lit (.atom [2])) (.cons (.lit (.atom [3])) .nil)))
+    (.cons (.ite (.lit (.atom [1]))
+      (.call [115, 117, 109] (.cons (.lit (.pair (.atom [1]) (.pair (.atom [2]) (.pair (.atom [3]) Val.nil)))) .nil))
+      (.lit Val.nil)) .nil)))
+
+def openResidual : Core.Expr :=
+  .op 16 (.cons (.var [88]) (.cons (.lit (.atom [6])) (.cons (.lit (.atom [6])) .nil)))
+
+example : Shrink.thmFrag [sumFn] openExpr = true := by decide
+example : Core.exprOk openResidual = true := by decide
+example : Shrink.shown (Shrink.replShrink Ops.chiaOps [sumFn] 12 openExpr) = some (Shrink.toVal openResidual) := by
+  decide
+example : Shrink.resVal (Core.evalCore Ops.chiaOps [sumFn] 40 (.cons (.atom [88]) .nil) (.pair (.atom [5]) Val.nil)
+    openExpr) = some (.atom [17]) := by decide
+
+/-- CONSTANT SOUNDNESS on the fragment: a constant answer is the value of the original
+    wherever the original has one (lazier is allowed, different is not). -/
+theorem shrink_const_sound_partial (ops : OpSem) (hops : Core.OpsCore ops) (fns : List Core.FnDef)
+    (k : Nat) (e : Core.Expr) (c : Val) (hfrag : Shrink.thmFrag fns e = true)
+    (hs : Shrink.replShrink ops fns k e = .ok (.lit c))
+    (n : Nat) (pat : Rich) (args v : Val) (he : Core.evalCore ops fns n pat args e = .ok v) : v = c :=
+  (Shrink.evalCore_lit_inv
+    (shrink_residual_sound_partial ops hops fns k e (.lit c) hfrag rfl hs n pat args v he)).1
+
+/-- closed expression `(+ 1 (if (= 2 2) (sum (q 1 2 3)) 0))`: a recursive function folded to 7. -/
+def closedExpr : Core.Expr :=
+  .op 16 (.cons (.lit (.atom [1]))
+    (.cons (.ite (.op 9 (.cons (.lit (.atom [2])) (.cons (.lit (.atom [2])) .nil)))
+      (.call [115, 117, 109] (.cons (.lit (.pair (.atom [1]) (.pair (.atom [2]) (.pair (.atom [3]) Val.nil)))) .nil))
+      (.lit Val.nil)) .nil))
+
+example : Shrink.thmFrag [sumFn] closedExpr = true := by decide
+example : Shrink.shown (Shrink.replShrink Ops.chiaOps [sumFn] 12 closedExpr) =
+    some (Shrink.toVal (.lit (.atom [7]))) := by decide
+example : Shrink.resVal (Core.evalCore Ops.chiaOps [sumFn] 40 .nil Val.nil closedExpr) = some (.atom [7]) := by decide
+
+/-- … and so does the COMPILED program: whenever the source meaning of `(mod PARAMS defs e)` has a
+    value, the code the compiler emits returns the constant the REPL printed. -/
+theorem shrink_const_compiled_partial (ops : OpSem) (hops : Core.OpsCore ops) (P : Core.Prog)
+    (hwf : Core.progWF P = true) (code : Val) (hc : Core.compileCore P = some code)
+    (hfrag : Shrink.thmFrag P.fns P.body = true) (k : Nat) (c : Val)
+    (hs : Shrink.replShrink ops P.fns k P.body = .ok (.lit c))
+    (n : Nat) (args v : Val) (he : Core.evalProg ops P n args = .ok v) :
+    Clvm.Evaluates ops code args c := by
+  have hv : v = c := shrink_const_sound_partial ops hops P.fns k P.body c hfrag hs n P.params args v he
+  rw [← hv]
+  exact C01.compile_core_correct_partial ops hops P hwf code hc n args v he
+
+/-- … and the compiled RESIDUAL program returns what the source meaning of the original is. -/
+theorem shrink_residual_compiled_partial (ops : OpSem) (hops : Core.OpsCore ops) (P : Core.Prog)
+    (hfrag : Shrink.thmFrag P.fns P.body = true) (k : Nat) (e' : Core.Expr)
+    (hs : Shrink.replShrink ops P.fns k P.body = .ok e')
+    (hwf' : Core.progWF { P with body := e' } = true) (code' : Val)
+    (hc' : Core.compileCore { P with body := e' } = some code')
+    (n : Nat) (args v : Val) (he : Core.evalProg ops P n args = .ok v) :
+    Clvm.Evaluates ops code' args v := by
+  have hres : Core.exprOk e' = true := by
+    have h := hwf'
+    simp only [Core.progWF, Bool.and_eq_true] at h
+    exact h.1.1.1.2
+  have h2 := shrink_residual_sound_partial ops hops P.fns k P.body e' hfrag hres hs n P.params args v he
+  exact C01.compile_core_correct_partial ops hops { P with body := e' } hwf' code' hc' n args v h2
+
+def closedProg : Core.Prog := { params := .nil, fns := [sumFn], body := closedExpr }
+def openProg : Core.Prog := { params := .cons (.atom [88]) .nil, fns := [sumFn], body := openExpr }
+example : Core.progWF closedProg = true := by decide
+example : (Core.compileCore closedProg).isSome = true := by decide
+example : Core.progWF { openProg with body := openResidual } = true := by decide
+example : (Core.compileCore { openProg with body := openResidual }).isSome = true := by decide
+
+/-- the defect class inside the core language (findings C16-F1 / C16-F3), mirrored by the model:
+    `(if 1 X 3)` with `X` free is answered `(q . X)` — the NAME — although the program
+    `(mod (X) (if 1 X 3))` returns its argument (7 on `(7)`).  The theorems above exclude it by
+    `closedE` on the branches. -/
+theorem open_if_branch_counterexample :
+    Shrink.shown (Shrink.replShrink Ops.chiaOps [] 6 (.ite (.lit (.atom [1])) (.var [88]) (.lit (.atom [3]))))
+      = some (Shrink.toVal (.lit (.atom [88]))) ∧
+    Shrink.resVal (Core.evalCore Ops.chiaOps [] 6 (.cons (.atom [88]) .nil) (.pair (.atom [7]) Val.nil)
+      (.ite (.lit (.atom [1])) (.var [88]) (.lit (.atom [3])))) = some (.atom [7]) := by
+  decide
 
 end C16
